@@ -726,6 +726,7 @@ let handle (fields : string list) : string * string =
     let m = (match what with
         | "frame-integrity" -> "frames-intact"
         | "race-detector" -> "no-race-reported"
+        | "binary-under-connection-churn" -> "no-fault"
         | _ -> "none") in
     (m, if m = impl then "ok"
         else if String.length impl >= 5 && String.sub impl 0 5 = "race:" then "fail:" ^ impl
